@@ -97,6 +97,8 @@ func (p *Impl) Prepare(dir string, pkgPath ...string) (err error) {
 func (p *Impl) Find(dir, pkgPath string) (f io.ReadCloser, err error) {
 	val, ok := p.cache.Load(pkgPath)
 	if !ok || isDirty(&f, pkgPath, val, p.h) {
+		// a dirty entry must not be served when the listing below fails or omits the package
+		p.cache.Delete(pkgPath)
 		err = p.Prepare(dir, pkgPath)
 		if val, ok = p.cache.Load(pkgPath); ok {
 			return os.Open(val.(*pkgCache).expfile)
